@@ -4,7 +4,7 @@ Spec: spec/ExprSyntax.tla.  TLC enumerates typed expression trees, prints each w
 full parentheses from the precedence TABLE, reads the token string back with a reader written from the
 grammar's LAYERED productions, checks round trip, value preservation, that the reading is one of the
 bracketings of the token string and that no other bracketing prints the same, chooses a distinguishing
-environment, and prints (tokens, expected value in five environments).  Literal forms (numbers as digit
+environment, and prints (tokens, expected value in six environments).  Literal forms (numbers as digit
 sequences with fraction / exponent, strings with escapes, Booleans) are printed with their exact value.
 
 Binding (C, oracle mode): every printed token string is embedded in a class, parsed by the real front end
@@ -28,7 +28,7 @@ META = {
     "ready": False,
     "category": "model_checking",
     "technique": "TLA+ spec (ExprSyntax.tla: precedence table as data, table-driven printer, grammar-layer reference reader, all-bracketings reader, exact rational/Boolean semantics) model-checked by TLC; every printed token string parsed by the real front end and the AST evaluated exactly (oracle mode)",
-    "text": "TLC checks on every typed expression tree of the bounded family (all trees with <=2 operators over the full operator set incl. element-wise forms, relations, not/and/or, if/elseif, builtin calls; 3 operators over one operator per precedence level; thorough: all trees with <=3 operators, 4 operators over representatives, random deeper trees) that the table-driven printing read back by the layered reference reader gives the same tree and values, that the reading is a bracketing of the token string and the only one with that printing, and picks a distinguishing environment; every token string (minimal, one redundant pair at each node, fully parenthesised, literal leaves, elseif spelling) is parsed by pymoca and evaluated in 5 environments against TLC's exact values; number/string/Boolean literal forms are compared by type and exact value.",
+    "text": "TLC checks on every typed expression tree of the bounded family (all trees with <=2 operators over the full operator set incl. element-wise forms, relations, not/and/or, if/elseif, builtin calls; 3 operators over one operator per precedence level; thorough: all trees with <=3 operators, 4 operators over representatives, random deeper trees) that the table-driven printing read back by the layered reference reader gives the same tree and values, that the reading is a bracketing of the token string and the only one with that printing, and picks a distinguishing environment; every token string (minimal, one redundant pair at each node, fully parenthesised, literal leaves, elseif spelling) is parsed by pymoca and evaluated in 6 environments against TLC's exact values; number/string/Boolean literal forms are compared by type and exact value.",
     "note": "Trusted: TLC, the token->text join and class embedding, the ~100-line evaluator vf/ir_expr.py (exact Fractions). Values are exact rationals; transcendental builtins, arrays, ranges, named arguments, `end` are outside the family. Undefined values (x/0, 0^-k, non-integer exponents, magnitudes beyond 30000) are dropped per environment and counted.",
     "design_ref": "DESIGN.md section 4, C03",
 }
@@ -224,11 +224,11 @@ def selftest(envs):
     def sub(x, y):
         return ast.Expression(operator="-", operands=[x, y])
     p = {"kind": "expr", "toks": ["a", "-", "b", "-", "c"], "pm": "min", "shape": ["add", "add", "var"],
-         "vals": [[0, -6, 1]] + [[2, 0, 0]] * 4}
+         "vals": [[0, -6, 1]] + [[2, 0, 0]] * 5}
     left = sub(sub(ref("a"), ref("b")), ref("c"))
     right = sub(ref("a"), sub(ref("b"), ref("c")))
     good, _ = judge(p, left, envs)
-    bad1, _ = judge(dict(p, vals=[[0, -5, 1]] + [[2, 0, 0]] * 4), left, envs)
+    bad1, _ = judge(dict(p, vals=[[0, -5, 1]] + [[2, 0, 0]] * 5), left, envs)
     bad2, _ = judge(p, right, envs)
     lit = {"kind": "num", "chars": ["2", "5", "e", "-", "1"], "expect": {"int": False, "val": [0, 5, 2]}}
     good2, _ = judge(lit, ast.Primary(value=2.5), envs)
@@ -318,16 +318,18 @@ def _run(ctx, thorough, procs, scratch):
         evals += ev
         per[name] = {"programs": len(ps), "mismatches": nv}
     if thorough:
-        mins = [p for p in allprogs if p["kind"] != "expr" or p["pm"] in ("min", "elseif", "lits")]
+        mins = [p for p in allprogs if p["kind"] != "expr" or p["pm"] in ("min", "elseif")]
         for cx in ("decl", "arg", "ifcond"):
             sub = [p for p in mins if not (cx == "ifcond" and p["kind"] == "str")]
             ev, nv = compare_corpus(ctx, sub, "checked-in", cx, envs_raw, procs)
             evals += ev
             per["context=" + cx] = {"programs": len(sub), "mismatches": nv}
         if "regenerated" in _G["parsers"]:
-            ev, nv = compare_corpus(ctx, allprogs, "regenerated", "rhs", envs_raw, procs)
+            # the grammar decides precedence, not the listener: the redundant-pair printings add nothing here
+            sub = [p for p in allprogs if p["kind"] != "expr" or p["pm"] != "red"]
+            ev, nv = compare_corpus(ctx, sub, "regenerated", "rhs", envs_raw, procs)
             evals += ev
-            per["regenerated-parser"] = {"programs": len(allprogs), "mismatches": nv, "generated_files_identical": regen_note}
+            per["regenerated-parser"] = {"programs": len(sub), "mismatches": nv, "generated_automata_identical": regen_note}
 
     for p in [q for q in allprogs if q["kind"] == "expr" and q["pm"] == "min" and q["nalts"] > 3][:3] + \
             [q for q in allprogs if q["kind"] == "num" and not q["expect"]["int"]][:1] + \
@@ -342,7 +344,7 @@ def _run(ctx, thorough, procs, scratch):
     ctx.extra["bracketing_analysis"] = {"programs": len(brk), "without_single_distinguishing_env": degenerate,
                                         "max_other_bracketings": max([p["nalts"] for p in brk] or [0])}
     ctx.extra["precedence_table"] = envobj["table"]
-    ctx.assumptions += ["values are compared in the 5 environments of ExprSyntax.tla (exact rationals / Booleans); an environment in which the expression is undefined is skipped",
+    ctx.assumptions += ["values are compared in the 6 environments of ExprSyntax.tla (exact rationals / Booleans); an environment in which the expression is undefined is skipped",
                         "tokens are separated by single blanks when rendered; lexing of adjacent tokens without blanks is not covered",
                         "the evaluator reads element-wise operators as their scalar counterparts"]
     return {"evaluations": evals, "exhaustive": True,
